@@ -241,6 +241,51 @@ def rule_empty_diff(ctx, rep):
                       "(a run that changes nothing would still report a changeset)")
 
 
+def rule_strict_decode(ctx, rep, rule_id="R-STRICT-DECODE"):
+    """Shared by C03 / C14: a manifest or source that cannot be decoded must fail (file left alone, failure / failed notice reported),
+    not be 'carried through' a lossy or escaping error handler into a rewrite."""
+    rep.rule(
+        rule_id,
+        "in every read-modify-write site (3 pipelines, 4 manifest writers and their private helpers) text is decoded and encoded strictly: "
+        "no `errors=` handler other than 'strict' on open() / read_text / write_text / decode / encode -- with surrogateescape / ignore / "
+        "replace a file in another encoding (UTF-16 requirements.txt) is 'read', appended to and written back as garbage while the report "
+        "says it was updated",
+        min_instances=7,
+    )
+    for fn in rw_sites(ctx):
+        r = ctx.resolver(fn)
+        fns = [fn]
+        if fn.cls is not None:
+            for n in walk_no_nested(fn.node):
+                if isinstance(n, ast.Call):
+                    for t in r.resolve_call(n):
+                        if isinstance(t, FuncInfo) and t.cls is not None and t.name.startswith("_") and t not in fns:
+                            fns.append(t)
+        bad = []
+        n_io = 0
+        for f in fns:
+            rr = ctx.resolver(f)
+            for n in walk_no_nested(f.node):
+                if not isinstance(n, ast.Call):
+                    continue
+                q = rr.callee_qname(n) if isinstance(n.func, (ast.Name, ast.Attribute)) else None
+                la = last_attr(n.func)
+                if q in ("open", "io.open", "codecs.open") or la in ("read_text", "write_text", "decode", "encode"):
+                    n_io += 1
+                    e = kwarg(n, "errors")
+                    if e is None and la in ("decode", "encode") and len(n.args) >= 2:
+                        e = n.args[1]
+                    if e is not None:
+                        ev = rr.expand(e)
+                        if isinstance(ev, ast.Name) and ev.id in f.module.constants:
+                            ev = f.module.constants[ev.id]
+                        if not (isinstance(ev, ast.Constant) and ev.value in ("strict", None)):
+                            bad.append((f, n, unparse(ev)[:30]))
+        rep.check(rule_id, fn.qname, fn.loc(bad[0][1]) if bad else fn.loc(), not bad, "errors-handler",
+                  "; ".join(f"`{unparse(n)[:50]}` in {f.name} uses errors={v}" for f, n, v in bad[:3])
+                  + ": undecodable input is altered / escaped instead of failing", io_calls=n_io)
+
+
 def rule_newline(ctx, rep):
     rep.rule(
         "R-NEWLINE-LOSSLESS",
@@ -421,6 +466,7 @@ def check(ctx, rep):
     from .c17 import rule_exec_order
 
     rule_exec_order(ctx, rep)
+    rule_strict_decode(ctx, rep)
     rep.not_covered += [
         "byte-level applicability of difflib output (BOM, encodings, final newline arithmetic)",
         "lossless round-trip of libcst parse/emit (trusted)",
